@@ -382,7 +382,10 @@ class Polygon(Shape2D):
 
         inertia_tensor = np.diag([0, 0, self.polar_moment_inertia])
         shifted_inertia_tensor = translate_inertia_tensor(
-            original_center, rotate_order2_tensor(mat, inertia_tensor), self.area
+            # mat rotates the normal onto z, so its transpose takes the tensor back.
+            original_center,
+            rotate_order2_tensor(mat.T, inertia_tensor),
+            self.area,
         )
 
         # Restore the original array object (it may have been handed out to callers).
